@@ -1,4 +1,4 @@
 SPECIFICATION PSpec
-CONSTANTS Widths = {1, 2} Cuts = {"fc"}
-INVARIANTS ContractButD5 Emit
+CONSTANTS Widths = {1, 2} Cuts = {"fc"} Repaired = TRUE
+INVARIANTS PContract PEmit
 CHECK_DEADLOCK FALSE
